@@ -20,10 +20,69 @@ from common import Case, Node
 
 UNIV = ["s:a", "s:b", "s:ab", "s:A", "i:7", "i:0", "e:1", "e:1", "p:1", "s:", "t:1,2", "s:a1", "i:3"]
 
-# (pattern, flags, form)   form: how the match argument is passed to nutree
+# ---------------------------------------------------------------------------
+# Regular expressions as SYNTAX TREES.  The pattern string handed to nutree (and to the real `re` for the oracle) is
+# rendered from the tree; the Coq model receives the tree and decides `fullmatch` with its own engine (Regex.v).
+#   ("eps",) ("chr", c) ("any",) ("digit",) ("set", neg, [(lo, hi), ...]) ("cat", a, b) ("alt", a, b)
+#   ("star", a) ("plus", a) ("opt", a)
+# ---------------------------------------------------------------------------
+def rx_render(t, ctx="top"):
+    k = t[0]
+    if k == "eps":
+        return ""
+    if k == "chr":
+        return re.escape(t[1])
+    if k == "any":
+        return "."
+    if k == "digit":
+        return r"\d"
+    if k == "set":
+        return "[" + ("^" if t[1] else "") + "".join(re.escape(lo) if lo == hi else f"{lo}-{hi}" for lo, hi in t[2]) + "]"
+    if k == "cat":
+        s = rx_render(t[1], "cat") + rx_render(t[2], "cat")
+        return f"(?:{s})" if ctx == "rep" else s
+    if k == "alt":
+        s = rx_render(t[1], "alt") + "|" + rx_render(t[2], "alt")
+        return f"(?:{s})" if ctx in ("cat", "rep") else s
+    if k in ("star", "plus", "opt"):
+        return rx_render(t[1], "rep") + {"star": "*", "plus": "+", "opt": "?"}[k]
+    raise ValueError(t)
+
+
+def rx_coq(t):
+    k = t[0]
+    if k == "eps":
+        return "REps"
+    if k == "chr":
+        return f"(RChr {ord(t[1])})"
+    if k == "any":
+        return "RAny"
+    if k == "digit":
+        return "RDigit"
+    if k == "set":
+        return f"(RCls {H.coq_bool(t[1])} {H.coq_list(f'({ord(lo)}, {ord(hi)})' for lo, hi in t[2])})"
+    if k in ("cat", "alt"):
+        return f"({'RCat' if k == 'cat' else 'RAlt'} {rx_coq(t[1])} {rx_coq(t[2])})"
+    if k in ("star", "plus", "opt"):
+        return f"({ {'star': 'RStar', 'plus': 'RPlus', 'opt': 'ROpt'}[k] } {rx_coq(t[1])})"
+    raise ValueError(t)
+
+
+def _c(ch):
+    return ("chr", ch)
+
+
+_ANYSTAR = ("star", ("any",))
+# (syntax tree | raw pattern string, flags, form)   form: how the match argument is passed to nutree
 REGEXES = [
-    ("a", 0, "str"), ("a.*", 0, "str"), (".*b", 0, "str"), ("[ab]+", 0, "str"), (".", 0, "str"), ("", 0, "str"),
-    ("a", re.IGNORECASE, "tuple"), (r".*\d", 0, "list"), ("b|E1", 0, "str"), (".*", 0, "str"), ("x", 0, "str"),
+    (_c("a"), 0, "str"), (("cat", _c("a"), _ANYSTAR), 0, "str"), (("cat", _ANYSTAR, _c("b")), 0, "str"),
+    (("plus", ("set", False, [("a", "a"), ("b", "b")])), 0, "str"), (("any",), 0, "str"), (("eps",), 0, "str"),
+    (_c("a"), re.IGNORECASE, "tuple"), (("cat", _ANYSTAR, ("digit",)), 0, "list"),
+    (("alt", _c("b"), ("cat", _c("E"), _c("1"))), 0, "str"), (_ANYSTAR, 0, "str"), (_c("x"), 0, "str"),
+    (("star", ("cat", _c("a"), _c("b"))), 0, "str"), (("cat", ("opt", _c("a")), _c("b")), 0, "tuple"),
+    (("plus", ("set", True, [("a", "a")])), 0, "str"), (("cat", ("set", False, [("a", "z")]), ("opt", ("digit",))), re.IGNORECASE, "list"),
+    # outside the modelled syntax: truth-table path
+    ("a{1,2}b?", 0, "str"), ("(?i)ab?", 0, "str"), (r"\w\d", 0, "list"),
 ]
 PREDS = ["true", "false", "leaf", "depth_odd", "pos_mod3", "has_kids_list", "name_nonempty", "is_clone", "none"]
 
@@ -264,8 +323,8 @@ class Prop:
             "different parents; all leaves clones of each other; equal-comparing objects; explicit int/str data_ids and node_ids colliding with int data; falsy data 0 / '') "
             "x {as built, siblings created last-to-first, a clone removed / re-added / moved, a clone moved behind its later clone} plus seeded random trees (<= 14 nodes quick, <= 30 "
             "thorough; plain and typed; default, name-based and hash-mod-7 calc_data_id) shuffled by random moves/removals/additions so the "
-            "clone index order differs from pre-order; per tree: Node.find_all/find_first from every node x 11 regular expressions (str, "
-            "(str,flags), [str,flags]) + 9 callbacks + identity matches x add_self x max_results in {None,0,1..5}; the same by data and "
+            "clone index order differs from pre-order; per tree: Node.find_all/find_first from every node x 18 regular expressions (15 sent to the model as syntax trees - str, "
+            "(str,flags), [str,flags], IGNORECASE - and decided by the model's own fullmatch; 3 outside the modelled syntax as truth tables) + 9 callbacks + identity matches x add_self x max_results in {None,0,1..5}; the same by data and "
             "data_id (present, absent, falsy); Tree.find_all/find_first by match, data, data_id, node_id x max_results; argument conflicts; "
             "Node.is_clone / get_clones of every node; HISTORIES ON ONE TREE OBJECT: on the largest and the random trees the queries are asked, the same tree is re-ordered / re-keyed "
             "(move_to, Tree.sort, sort_children, set_data, rename - nothing registered or unregistered) and all tree-wide searches, a "
@@ -276,7 +335,11 @@ class Prop:
     exhaustive_note = "all shapes <= N nodes (N=4 quick) x 6 labelings x 4 shuffles, every start node, every matcher, k in {None,1,2,3}"
     assumptions = [
         "identity of nodes is the allocation index recorded by a harness-side wrapper of Node.__init__",
-        "re.fullmatch is a pure predicate of the node name (the harness evaluates the real `re` and passes the truth table)",
+        "patterns inside the modelled regex syntax (literals, `.`, sets/ranges/negated sets, \\d, concatenation, |, *, +, ?, IGNORECASE on "
+        "ASCII) are sent to the model as syntax trees and decided by the model's own fullmatch (proved = membership of the whole name in "
+        "the pattern's language); the pattern STRING is rendered from the tree, `re`'s parser is trusted to read it back as that tree",
+        "patterns outside that syntax: re.fullmatch is a pure predicate of the node name (the harness evaluates the real `re` and passes "
+        "the truth table)",
         "callbacks are pure predicates of the node",
         "registry and clone index are read from tree._node_by_id / tree._nodes_by_data_id; their well-formedness (hypothesis of the "
         "index-path theorems) is decided by the model's state_wf_b on every case",
@@ -291,8 +354,11 @@ class Prop:
               "then data_id, then data and answers KeyError / the node / AmbiguousMatchError according to the number of nodes carrying "
               "the id, ValueError for a Node key.  Tied to /repo on every run by a correspondence check (model evaluated by vm_compute "
               "on forest + registry + index observed from the implementation) and a pointer-walking Python oracle."),
-        note=("Trusted: Coq kernel + vm_compute; hand-written model theories/Forest/Search.v (tied by the correspondence only); harness; "
-              "`re` and callbacks as pure predicates.  The pre-order of a branch is Rose.v's structural `pre`/`pre_f`; the model's "
+        note=("Trusted: Coq kernel + vm_compute; hand-written model theories/Forest/Search.v + Regex.v (tied by the correspondence only); harness; "
+              "callbacks as pure predicates; `re` only as the parser of the rendered pattern strings and for the three patterns outside the "
+              "modelled syntax ('name FULLY matches' is a theorem: fullmatchb <-> the whole name is in the language; re.match = some prefix, "
+              "shown different).  Not modelled: flags other than IGNORECASE, Unicode case folding / digit classes, negative max_results, "
+              "the system root with add_self.  The pre-order of a branch is Rose.v's structural `pre`/`pre_f`; the model's "
               "traversal mirrors Node._iter_pre and is proved equal to it.  Print Assumptions: closed under the global context."),
         technique="Coq proof about an executable Gallina model + differential correspondence check (vm_compute) + Python oracle",
         design_ref="DESIGN.md section 6 (C09)",
@@ -453,12 +519,15 @@ class Prop:
 
         # --- matchers: python objects + truth tables
         matchers = []          # (python match argument, coq term, predicate for the oracle)
-        for pat, flags, form in REGEXES:
+        for rxt, flags, form in REGEXES:
+            pat = rxt if isinstance(rxt, str) else rx_render(rxt)
             rx = re.compile(pat, flags)
-            table = [s for s in names if rx.fullmatch(s)]
             arg = pat if form == "str" else ((pat, flags) if form == "tuple" else [pat, flags])
-            matchers.append((arg, "(MRe " + H.coq_list(H.coq_text(s) for s in table) + ")",
-                             (lambda rx: lambda n: rx.fullmatch(f"{n._data}") is not None)(rx)))
+            if isinstance(rxt, str):        # arbitrary pattern: the real `re` supplies the truth table
+                term = "(MRe " + H.coq_list(H.coq_text(s) for s in names if rx.fullmatch(s)) + ")"
+            else:                           # modelled syntax: the model decides fullmatch itself
+                term = f"(MRx {H.coq_bool(form != 'str')} {H.coq_bool(bool(flags & re.IGNORECASE))} {rx_coq(rxt)})"
+            matchers.append((arg, term, (lambda rx: lambda n: rx.fullmatch(f"{n._data}") is not None)(rx)))
         for pn in PREDS:
             fn = make_pred(pn, ctx)
             table = [lid(n) for n in nodes if fn(n)]
@@ -498,10 +567,11 @@ class Prop:
             for mi in (mi_small if (full or later) else mi_all):
                 queries.append(("NFA", p, None, mi, None, ks))
                 queries.append(("nff", p, None, mi, None))
-            for o in data_objs:
+            # absent / falsy data and data_ids from the first node only; from the others what the tree carries
+            for o in (data_objs if p == 0 or not full else [o for o in data_objs if any(n._data is o for n in nodes)]):
                 queries.append(("NFA", p, o, None, None, ks))
                 queries.append(("nff", p, o, None, None))
-            for d in did_args:
+            for d in (did_args if p == 0 or not full else present_dids[:5]):
                 queries.append(("NFA", p, None, None, d, ks))
                 queries.append(("nff", p, None, None, d))
             queries.append(("clones", p))
@@ -512,7 +582,7 @@ class Prop:
             queries.append(("NFA", p, data_objs[0], None, 7, [None]))
             queries.append(("NFA", p, None, 0, 7, [1]))
             queries.append(("nff", p, data_objs[0], 0, None))
-        for mi in mi_all:
+        for mi in (mi_all[::2] if later else mi_all):      # after a mutation: every second matcher tree-wide
             queries.append(("TFA", None, mi, None, ks))
             queries.append(("tff", None, mi, None, None))
         for o in data_objs:
